@@ -182,13 +182,17 @@ def check_group(op, maxnan, grp, got):
     vals = [v for v in grp if not isnan(v)]
     if nn > maxnan:
         return None if isnan(got) else "nan_policy_not_missing"
+    if not vals:
+        # groups with no non-missing value are only constrained for the sum operator (0 within the maxnan allowance);
+        # mean / max / last of nothing may be anything, NaN included
+        if op == 0:
+            if isnan(got):
+                return "nan_policy_spurious_nan"
+            if got != 0.0:
+                return "empty_group_sum_not_zero"
+        return None
     if isnan(got):
         return "nan_policy_spurious_nan"
-    if not vals:
-        # groups with no non-missing value are only constrained for the sum operator
-        if op == 0 and got != 0.0:
-            return "empty_group_sum_not_zero"
-        return None
     sabs = sum(abs(v) for v in vals)
     n = len(vals) + nn + 2
     if op == 0:
